@@ -150,7 +150,12 @@ def mutate_attr(
     return obj
 
 
-def invalidate_attrs(obj: Any, attr: str, invalidation_map: Dict[str, Set[str]] = None):
+def invalidate_attrs(
+    obj: Any,
+    attr: str,
+    invalidation_map: Dict[str, Set[str]] = None,
+    _seen: Optional[Set[str]] = None,
+):
     if invalidation_map is None:
         invalidation_map = obj.__spec_class__.invalidation_map
     if not invalidation_map:
@@ -165,7 +170,13 @@ def invalidate_attrs(obj: Any, attr: str, invalidation_map: Dict[str, Set[str]] 
         try:
             delattr(obj, invalidatee)
         except AttributeError:
-            pass
+            # Nothing is stored for `invalidatee` itself, but attributes that
+            # depend on it may still hold values derived from the old state.
+            if _seen is None:
+                _seen = {attr}
+            if invalidatee not in _seen:
+                _seen.add(invalidatee)
+                invalidate_attrs(obj, invalidatee, invalidation_map, _seen=_seen)
 
 
 def mutate_value(
